@@ -191,6 +191,30 @@ def h_spec_dispatch(eng, names, exps, fmt):
                     eng.prove(format(qc, mspec + fmt) == _join(format(m, mspec), want_u), f"magnitude-spec-concrete:{mspec}{fmt}")
                 elif mspec == ".3f":
                     eng.prove(format(m, mspec) in format(qc, mspec + fmt), f"magnitude-spec-concrete-present:{mspec}{fmt}")
+        # 2b. separate_format_defaults=True: a spec that gives only the magnitude part takes the unit
+        # part from default_format, and the other way round
+        if plain:
+            sfd = ureg.separate_format_defaults
+            try:
+                ureg.separate_format_defaults = True
+                fm.default_format = ".3f" + fmt
+                for m in (Fraction(5, 2), Fraction(-1234567, 1000)):
+                    qc = ureg.Quantity(eng.num(m), unit)
+                    full = _join(format(m, ".3f"), want_u)
+                    eng.prove(str(qc) == full, f"separate-defaults:empty-spec:{fmt}")
+                    got_m = format(qc, "+.1e")
+                    if got_m != _join(format(m, "+.1e"), want_u) and got_m == _join(format(m, "+.1e"), format(u, "~D" if "~" in fmt else "D")):
+                        # known finding K13: the layout letter of default_format is lost (the
+                        # formatter is chosen from the explicit spec alone); '~' survives
+                        eng.fail("separate-defaults:magnitude-only-spec-falls-back-to-D-layout", stop=False)
+                    else:
+                        eng.prove(got_m == _join(format(m, "+.1e"), want_u), f"separate-defaults:magnitude-only-spec:{fmt}")
+                    other = "~C" if fmt != "~C" else "D"
+                    eng.prove(format(qc, other) == _join(format(m, ".3f"), format(u, other)), f"separate-defaults:unit-only-spec:{fmt}")
+                    eng.prove(format(u, "") == want_u, f"separate-defaults:unit-empty-spec:{fmt}")
+            finally:
+                ureg.separate_format_defaults = sfd
+                fm.default_format = saved
         # 3. '#' = to_compact() first, wherever the '#' comes from
         with qto_math_shim():
             for m in (Fraction(5, 2) / 10**9, Fraction(1500), Fraction(1, 4), Fraction(12_000_000), Fraction(-32_000)):
